@@ -21,10 +21,12 @@ import (
 type optFlag int
 
 const (
-	optFlagNone  optFlag = iota
-	optFlagTrue          // the result is the constant true on that exit
-	optFlagFalse         // the result is the constant false on that exit
-	optFlagRead          // the result is the outcome of the optional read itself
+	optFlagNone      optFlag = iota
+	optFlagTrue              // the result is the constant true on that exit
+	optFlagFalse             // the result is the constant false on that exit
+	optFlagRead              // the result is the outcome of the optional read itself
+	optFlagNilErr            // the result is the nil error on that exit
+	optFlagNonNilErr         // the result is an error known to be non-nil on that exit
 )
 
 // optExit is a return of a helper that is reached after an OPTIONAL element was
@@ -192,36 +194,64 @@ func optReadSites(fn *ssa.Function, v ssa.Value, helpersOnly bool) []optReadSite
 			}
 			// edges that cannot follow an exit of the read that left the rest
 			// unlooked: the read failed, or a result tells another exit was taken
-			impossible := map[ssa.Value]bool{} // value -> the truth that is impossible
+			// Each exit of the read that left the rest unlooked is followed on its own:
+			// what its results say (a constant flag, the outcome of the read, a nil or
+			// non-nil error) removes the edges that cannot be taken after it.
+			var cases []map[int]optFlag
 			if direct {
-				impossible[call] = false
+				cases = []map[int]optFlag{nil}
 			} else {
-				n := call.Call.Signature().Results().Len()
-				for r := 0; r < n; r++ {
-					fl := sum.unlooked[0].flags[r]
-					for _, e := range sum.unlooked[1:] {
-						if e.flags[r] != fl {
-							fl = optFlagNone
-						}
-					}
-					for _, rv := range resultValues(call, r) {
-						switch fl {
-						case optFlagTrue, optFlagRead:
-							impossible[rv] = false
-						case optFlagFalse:
-							impossible[rv] = true
+				for _, e := range sum.unlooked {
+					cases = append(cases, e.flags)
+				}
+			}
+			reached := map[*ssa.Return]bool{}
+			for _, flags := range cases {
+				impossible := map[ssa.Value]bool{} // value -> the truth that is impossible
+				errIs := map[ssa.Value]optFlag{}   // error value -> known nil / non-nil
+				if direct {
+					impossible[call] = false
+				} else {
+					n := call.Call.Signature().Results().Len()
+					for r := 0; r < n; r++ {
+						for _, rv := range resultValues(call, r) {
+							switch flags[r] {
+							case optFlagTrue, optFlagRead:
+								impossible[rv] = false
+							case optFlagFalse:
+								impossible[rv] = true
+							case optFlagNilErr, optFlagNonNilErr:
+								errIs[rv] = flags[r]
+							}
 						}
 					}
 				}
-			}
-			for _, ce := range ir.CondEdges(fn) {
-				if t, has := impossible[ce.Cond]; has && ce.Truth == t {
-					cut[ce.Edge] = true
+				cutC := map[ir.Edge]bool{}
+				for e := range cut {
+					cutC[e] = true
+				}
+				for _, ce := range ir.CondEdges(fn) {
+					if t, has := impossible[ce.Cond]; has && ce.Truth == t {
+						cutC[ce.Edge] = true
+					}
+					if ev, nilWhenTrue, isNC := ir.NilCheck(ce.RawCond); isNC {
+						if fl, has := errIs[ev]; has {
+							saysNil := ce.RawTruth == nilWhenTrue
+							if saysNil != (fl == optFlagNilErr) {
+								cutC[ce.Edge] = true
+							}
+						}
+					}
+				}
+				seen, _ := ir.Reach(fn, b, cutC)
+				for _, r := range ir.Returns(fn) {
+					if seen[r.Block().Index] {
+						reached[r] = true
+					}
 				}
 			}
-			seen, _ := ir.Reach(fn, b, cut)
 			for _, r := range ir.Returns(fn) {
-				if seen[r.Block().Index] {
+				if reached[r] {
 					site.exits = append(site.exits, r)
 				}
 			}
@@ -265,6 +295,10 @@ func optSummaryOf(g *ssa.Function, k int) *optSummary {
 					if constant.BoolVal(kc.Value) {
 						fl = optFlagTrue
 					}
+				} else if isErrorType(rv.Type()) && ir.IsNilConst(rv) {
+					fl = optFlagNilErr
+				} else if isErrorType(rv.Type()) && errValClass(r, rv, 0) == "fail" {
+					fl = optFlagNonNilErr
 				} else if !site.helper && rv == ssa.Value(site.call) {
 					fl = optFlagRead
 				} else if site.helper {
